@@ -7,10 +7,10 @@ det = {}
 p = sys.argv[1] if len(sys.argv) > 1 else '/root/detect_all.out'
 if os.path.exists(p):
     for l in open(p):
-        m = re.match(r'(C\d+-[AB]) rc=(\d+) keys: (.*)', l.strip())
+        m = re.match(r'(C\d+-[A-Z]) rc=(\d+) keys: (.*)', l.strip())
         if m:
             det[m.group(1)] = (int(m.group(2)), m.group(3).split())
-for d in sorted(glob.glob(root + '/C*-[AB]')):
+for d in sorted(glob.glob(root + '/C*-[A-Z]')):
     id = os.path.basename(d)
     readme = open(d + '/README.md').read()
     title = readme.strip().split('\n')[0].lstrip('# ').strip()
